@@ -5,6 +5,7 @@ import (
 	"encoding/hex"
 	"fmt"
 	"strings"
+	"time"
 
 	"github.com/koron-go/z80"
 	"github.com/koron-go/z80/verifsim/world"
@@ -26,6 +27,10 @@ type C12Ev struct {
 	Data    string `json:"data,omitempty"`     // hex
 	DataLen int    `json:"data_len,omitempty"` // >0: that many bytes of filler instead of Data
 	NilData bool   `json:"nil_data,omitempty"`
+	// Do: what the device callback does at AtTick besides / instead of raising the request:
+	// "" raise; "reenter": call cpu.Step() on the running CPU from inside the callback (once);
+	// "copystep": copy the CPU struct by value, give the copy its own small memory and Step the copy
+	Do string `json:"do,omitempty"`
 }
 
 // C12Sc is a C12 scenario.
@@ -122,6 +127,9 @@ func (c12) Gen(r *world.Rng, tier string, n int) interface{} {
 		ev := C12Ev{AtStep: r.Intn(sc.Steps), Type: r.Pick(0, 1, 1, 1, 2, -1, 99)}
 		if r.Chance(1, 3) {
 			ev.AtTick = uint64(r.Range(1, 3*sc.Steps))
+			if r.Chance(1, 4) {
+				ev.Do = []string{"reenter", "copystep"}[r.Intn(2)]
+			}
 		}
 		switch r.Intn(9) {
 		case 0:
@@ -235,6 +243,9 @@ type c12World struct {
 	cancelAt uint64
 	hardStop uint64
 	stopWhy  string
+
+	inCallback bool
+	reentered  bool // a nested Step ran inside the current one: its accesses are in the same log
 }
 
 func c12Build(sc *C12Sc, env *Env) *c12World {
@@ -282,6 +293,28 @@ func c12Build(sc *C12Sc, env *Env) *c12World {
 		for i, e := range sc.Events {
 			if !w.fired[i] && e.AtTick != 0 && e.AtTick == w.tick {
 				w.fired[i] = true
+				switch e.Do {
+				case "reenter":
+					if !sc.UseRun && !w.inCallback {
+						w.inCallback, w.reentered = true, true
+						cpu.Step() // a callback that calls back into the CPU value
+						w.inCallback = false
+						env.Fire("callback-reenters-Step")
+					}
+					continue
+				case "copystep":
+					if !sc.UseRun && !w.inCallback {
+						w.inCallback = true
+						cp := *cpu // struct copy taken while a Step (possibly an acceptance) is in progress
+						cp.Memory = make(z80.DumbMemory, 256)
+						cp.IO = nil
+						cp.Step()
+						cp.Step()
+						w.inCallback = false
+						env.Fire("callback-copies-cpu-and-steps-the-copy")
+					}
+					continue
+				}
 				cpu.Interrupt = e.request()
 				if w.cancel == nil || w.tick <= w.cancelAt { // after cancel() the number of further Steps is the Go scheduler's
 					env.Fire(fmt.Sprintf("malformed-request@tick/type=%d", e.Type))
@@ -334,6 +367,33 @@ func c12Build(sc *C12Sc, env *Env) *c12World {
 
 func (c12) Exec(sci interface{}, env *Env) (res *Violation) {
 	sc := sci.(*C12Sc)
+	risky := false
+	for _, e := range sc.Events {
+		risky = risky || e.Do != ""
+	}
+	if !risky || sc.UseRun {
+		return c12Exec(sc, env)
+	}
+	// callbacks that re-enter or copy the CPU can only go wrong by hanging (a lock held across the
+	// callback): watchdog in real time - a scenario of <= 64 Steps takes microseconds
+	done := make(chan *Violation, 1)
+	go func() {
+		defer func() {
+			if r := recover(); r != nil {
+				done <- viol("panic", "%v", r)
+			}
+		}()
+		done <- c12Exec(sc, env)
+	}()
+	select {
+	case v := <-done:
+		return v
+	case <-time.After(30 * time.Second):
+		return viol("hang", "a Step did not return within 30 s of real time in a world whose device callback re-enters / copies the CPU (memory %s/%d, io %s, IM=%d): Step must return normally", sc.MemKind, sc.MemLen, sc.IOKind, sc.IM)
+	}
+}
+
+func c12Exec(sc *C12Sc, env *Env) (res *Violation) {
 	w := c12Build(sc, env)
 	cpu := w.cpu
 	where := "set-up"
@@ -418,6 +478,11 @@ func (c12) Exec(sci interface{}, env *Env) (res *Violation) {
 		log := w.log
 		if sc.Direct {
 			continue // no bus history without the recording wrapper: totality only
+		}
+		if w.reentered {
+			// the log of this Step also holds the nested Step's accesses: no history verdict
+			w.reentered, checkNext = false, false
+			continue
 		}
 		if checkNext && !hadReq {
 			// execution continues with the next byte
